@@ -5,6 +5,7 @@ import (
 	"errors"
 	"fmt"
 	"log"
+	"net"
 	"strings"
 )
 
@@ -29,7 +30,7 @@ func CheckHost(ctx context.Context, host string) (bool, error) {
 		log.Printf("Checking host for user %s", s.User.UserName())
 		for _, h := range Hosts {
 			h = strings.Replace(h, "{{ preferred_username }}", s.User.UserName(), 1)
-			if h == host {
+			if hostPort(h) == host {
 				return true, nil
 			}
 		}
@@ -37,4 +38,14 @@ func CheckHost(ctx context.Context, host string) (bool, error) {
 	}
 
 	return false, errors.New("unrecognized host selection criteria")
+}
+
+// hostPort returns a configured or token host the way a tunnel presents it: the
+// channel request always carries a port, a host written without one means the
+// remote desktop port
+func hostPort(host string) string {
+	if _, _, err := net.SplitHostPort(host); err != nil {
+		return net.JoinHostPort(host, "3389")
+	}
+	return host
 }
